@@ -527,3 +527,107 @@ package orda
 //@   ensures-local[same-entries] result == nil ==> its.Map != nil && (forall k string :: (k in its.Map) == (k in temp.Map)) && (forall k string :: k in its.Map ==> its.Map[k] == temp.Map[k])
 //@   ensures-local[same-size]    result == nil ==> its.Size == temp.Size
 //@   modifies *
+
+// ---------------------------------------------------------------------------------------
+// Snapshot import of a Document (C10): the per-node steps of the two-pass rebuild.
+// Every json node wraps its identity/tombstone record, a *jsonPrimitive, behind the embedded jsonType.
+// ---------------------------------------------------------------------------------------
+//@ typeinv jsonElement.jsonType : *jsonPrimitive
+//@ typeinv jsonObject.jsonType : *jsonPrimitive
+//@ typeinv jsonArray.jsonType : *jsonPrimitive
+//@ pred primOfObj(o *jsonObject) = o.jsonType.(as *jsonPrimitive)
+
+// timestamps that render to the same key are represented by ONE object after import
+//@ pred tsMapWF(a *unmarshalAssistant) = a.tsMap != nil && (forall k string :: k in a.tsMap ==> a.tsMap[k] != nil)
+//@ func (*unmarshalAssistant).unifyTimestamp
+//@   mode math
+//@   props C10
+//@   requires tsMapWF(its)
+//@   ensures[wf] tsMapWF(its)
+//@   ensures[nil-stays-nil]  ts == nil ==> result == nil
+//@   ensures[canonical]      ts != nil ==> keyOf(ts) in its.tsMap && result == its.tsMap[keyOf(ts)]
+//@   ensures[first-one-wins] ts != nil && old(keyOf(ts) in its.tsMap) ==> result == old(its.tsMap[keyOf(ts)])
+//@   ensures[new-key-registers-the-argument] ts != nil && !old(keyOf(ts) in its.tsMap) ==> result == ts
+//@   ensures[other-keys-untouched] forall k string :: (ts == nil || k != keyOf(ts)) ==> (k in its.tsMap) == old(k in its.tsMap) && its.tsMap[k] == old(its.tsMap[k])
+//@   modifies map[string]*model.Timestamp @ its.tsMap
+
+// first pass: a node of the right kind carrying the decoded (unified) create and delete times
+//@ func (*marshaledJSONType).unmarshalAsJSONType
+//@   mode math
+//@   props C10
+//@   dispatch jsonType : *jsonPrimitive
+//@   requires assistant != nil && tsMapWF(assistant) && assistant.common != nil
+//@   ensures[kind] (its.T == marshalKeyJSONElement ==> result != nil && result.(*jsonElement)) && (its.T == marshalKeyJSONObject ==> result != nil && result.(*jsonObject)) && (its.T == marshalKeyJSONArray ==> result != nil && result.(*jsonArray))
+//@   ensures[identity-and-tombstone-object] its.T == marshalKeyJSONObject ==> primOfObj(result.(as *jsonObject)).common == assistant.common && (its.C != nil ==> primOfObj(result.(as *jsonObject)).C == assistant.tsMap[keyOf(its.C)]) && ((its.D == nil) == (primOfObj(result.(as *jsonObject)).D == nil))
+//@   modifies map[string]*model.Timestamp @ assistant.tsMap, alloc
+
+// second pass for an object: its key table is rebuilt from the decoded (key -> create time) table by looking every
+// child up in the node table, with the decoded live count and THE DOCUMENT'S base datatype (the restored object must be
+// able to log and report errors like the original)
+//@ func (*jsonObject).unmarshal
+//@   mode math
+//@   props C10
+//@   dispatch jsonType : *jsonPrimitive
+//@   requires marshaled != nil && marshaled.O != nil && assistant != nil && assistant.common != nil && its.jsonType != nil && primOfObj(its).common != nil && primOfObj(its).common.NodeMap != nil
+//@   requires forall k string :: k in marshaled.O.M ==> marshaled.O.M[k] != nil
+//@   loop 0 invariant[copied-so-far] its.mapSnapshot != nil && its.mapSnapshot.Map != nil && its.mapSnapshot.Map != marshaled.O.M && (forall k string :: (k in its.mapSnapshot.Map) == (k in marshaled.O.M && visited(k))) && (forall k string :: k in its.mapSnapshot.Map ==> its.mapSnapshot.Map[k] == primOfObj(its).common.NodeMap[keyOf(marshaled.O.M[k])])
+//@   loop 0 invariant[header] its.mapSnapshot.BaseDatatype == assistant.common.BaseDatatype && its.mapSnapshot.Size == marshaled.O.S && fresh(its.mapSnapshot)
+//@   ensures[base-restored] its.mapSnapshot != nil && its.mapSnapshot.BaseDatatype == assistant.common.BaseDatatype
+//@   ensures[size-restored] its.mapSnapshot.Size == marshaled.O.S
+//@   ensures[children-resolved-by-identity] (forall k string :: (k in its.mapSnapshot.Map) == (k in marshaled.O.M)) && (forall k string :: k in its.mapSnapshot.Map ==> its.mapSnapshot.Map[k] == primOfObj(its).common.NodeMap[keyOf(marshaled.O.M[k])])
+//@   modifies jsonObject.mapSnapshot @ its, mapSnapshot.*, map[string]timedType, alloc
+
+// ---------------------------------------------------------------------------------------
+// Document: a handle whose node, or any ancestor of it, was deleted must refuse local operations (C03: a refused
+// call changes nothing — an accepted one on a detached subtree would emit an operation no replica can place).
+//   primOf(j)    the identity/tombstone record of json node j
+//   garbageP(p)  p or one of its ancestors is a tombstone (defined by unfolding along parent; parents are acyclic)
+// ---------------------------------------------------------------------------------------
+//@ typeinv jsonPrimitive.parent : *jsonObject | *jsonArray | *jsonElement
+//@ pred primOf(j jsonType) = (j.(*jsonPrimitive) ? j.(as *jsonPrimitive) : (j.(*jsonObject) ? j.(as *jsonObject).jsonType.(as *jsonPrimitive) : (j.(*jsonArray) ? j.(as *jsonArray).jsonType.(as *jsonPrimitive) : j.(as *jsonElement).jsonType.(as *jsonPrimitive))))
+//@ pred wrappersWF() = (forall o *jsonObject :: {o.jsonType} o.jsonType != nil) && (forall a *jsonArray :: {a.jsonType} a.jsonType != nil) && (forall e *jsonElement :: {e.jsonType} e.jsonType != nil)
+//@ function garbageP(p *jsonPrimitive) bool
+//@ axiom garbageUnfold: forall p *jsonPrimitive :: {garbageP(p)} p != nil ==> (garbageP(p) == (p.D != nil || (p.parent != nil && garbageP(primOf(p.parent)))))
+
+// The methods of a json node that read its identity/tombstone record, as seen through the jsonType interface. The
+// wrappers (jsonObject, jsonArray, jsonElement) only forward to the embedded record (promoted methods); that forwarding
+// is assumed, the record's own methods are verified (targets).
+//@ func jsonType.isTomb
+//@   mode math
+//@   props C03
+//@   targets *jsonPrimitive
+//@   requires wrappersWF()
+//@   ensures result == (primOf(its).D != nil)
+//@   modifies nothing
+//@ func jsonType.getParent
+//@   mode math
+//@   props C03
+//@   targets *jsonPrimitive
+//@   requires wrappersWF()
+//@   ensures result == primOf(its).parent
+//@   modifies nothing
+// (assumed forwarding; the record's own isGarbage is under contract below)
+//@ extern func jsonType.isGarbage
+//@   requires wrappersWF()
+//@   ensures result == garbageP(primOf(its))
+//@   modifies nothing
+//@ extern func jsonType.getType
+//@   modifies nothing
+
+//@ func (*jsonPrimitive).isGarbage
+//@   mode math
+//@   props C03
+//@   uses garbageUnfold
+//@   dispatch jsonType : *jsonPrimitive | *jsonObject | *jsonArray | *jsonElement
+//@   requires wrappersWF()
+//@   loop 0 invariant[same-answer-from-here] (p == nil ==> !garbageP(its)) && (p != nil ==> primOf(p) != nil && garbageP(its) == garbageP(primOf(p)))
+//@   ensures[self-or-ancestor-deleted] result == garbageP(its)
+//@   modifies nothing
+
+//@ func (*document).assertLocalOp
+//@   mode math
+//@   props C03
+//@   dispatch jsonType : *jsonPrimitive | *jsonObject | *jsonArray | *jsonElement
+//@   requires its.SnapshotDatatype != nil && its.SnapshotDatatype.Snapshot != nil && (its.SnapshotDatatype.Snapshot.(*jsonObject) || its.SnapshotDatatype.Snapshot.(*jsonArray) || its.SnapshotDatatype.Snapshot.(*jsonElement)) && wrappersWF() && its.SnapshotDatatype.BaseDatatype != nil && its.datatype != nil
+//@   ensures[a-detached-node-is-refused] !workOnGarbage && garbageP(primOf(its.SnapshotDatatype.Snapshot.(as jsonType))) ==> result != nil
+//@   modifies nothing
